@@ -135,6 +135,73 @@ class C06:
                         f"are swapped (e.g. only one geometry is buffered, or an extent of one side is used twice)",
                         s.node.lineno)
 
+    def check_body_inlined(self, s, g1, g2, tb, fb, site):
+        """compute_affinity without the _prepare_geometry helper: the same obligations on the written-out form"""
+        ctx = self.ctx
+        conv = ("global", f"{CONV}:geometry_to_shapely", "func")
+        tsym = ("global", f"{AFF}:compute_affinity_in_time", "func")
+        bsym = ("global", f"{OPS}:buffer_geometry", "func")
+        bs = ctx.summ.of_func(OPS, "buffer_geometry")
+        convs = [e.term[2][0] for e in s.calls if e.term[1] == conv and len(e.term[2]) == 1]
+        P = {}
+        for g in (g1, g2):
+            cands = [t for t in convs if any(x == g for x in walk(t)) and not any(x == (g2 if g == g1 else g1) for x in walk(t))]
+            if len(set(cands)) != 1:
+                ctx.undec("R06.3", site, f"the prepared form of {show(g)} is not a single expression handed to geometry_to_shapely")
+                return
+            P[g] = cands[0]
+        P1, P2 = P[g1], P[g2]
+        # per type: buffered with the caller's buffers for exactly the buffer types, left alone otherwise
+        genv = {}
+        for x in list(walk(P1)) + list(walk(P2)):
+            if x[0] == "global" and x[2] == "assign" and x not in genv and x[1].startswith(AFF + ":"):
+                try:
+                    genv[x] = frozenset(self.type_set(x[1].split(":")[1]))
+                except AnalysisError:
+                    pass
+        ok_all = True
+        for g, Pg in ((g1, P1), (g2, P2)):
+            for T in ALL_TYPES:
+                env = dict(genv)
+                env[("attr", g, "type")] = T
+                v = peval(Pg, env)
+                if T in BUFFER_TYPES:
+                    bound = bind_args(v, bs.params)[0] if (v[0] == "call" and v[1] == bsym) else None
+                    good = bound is not None and bound.get(bs.params[0]) == g and bound.get("time_buffer") == tb and bound.get("freq_buffer") == fb
+                else:
+                    good = v == g
+                if not good:
+                    ok_all = False
+                    ctx.bad("R06.3", self.file, "compute_affinity", f"{show(g)} of type {T} -> {show(v)[:60]}",
+                            f"a {T} given as {show(g)} is prepared as `{show(v)[:80]}`: "
+                            + ("it has no area of its own and must be buffered with the caller's (time_buffer, freq_buffer)" if T in BUFFER_TYPES
+                               else "it has an extent of its own and must be compared as it is"), s.node.lineno, witness={"type": T})
+        if ok_all:
+            ctx.ok("R06.3", site, "both geometries buffered with the caller's buffers for exactly the buffer types (helper written out)")
+            ctx.ok("R06.3", site, "geometry1 prepared")
+            ctx.ok("R06.3", site, "geometry2 prepared")
+        TIME = ("global", f"{AFF}:TIME_GEOMETRY_TYPES", "assign")
+        raw_branch = canon(("or", (("cmp", "in", ("attr", g1, "type"), TIME), ("cmp", "in", ("attr", g2, "type"), TIME))))
+        branch = canon(("or", (("cmp", "in", ("attr", P1, "type"), TIME), ("cmp", "in", ("attr", P2, "type"), TIME))))
+        trets = [r for r in s.returns if r.term[0] == "call" and r.term[1] == tsym]
+        def time_branch_ok(lv):
+            return canon(lv) in (branch, raw_branch)
+
+        if len(trets) == 1 and time_branch_ok(trets[0].live) and set(trets[0].term[2]) == {P1, P2}:
+            ctx.ok("R06.2", site, "time-only branch taken iff either geometry is time-only; both prepared geometries forwarded")
+        else:
+            ctx.bad("R06.2", self.file, "compute_affinity", f"time branch: {show(trets[0].live)[:90] if trets else 'missing'}",
+                    "the time-only branch must be taken exactly when geometry1 OR geometry2 is a TimeStamp/TimeInterval and "
+                    f"pass both prepared geometries (found condition {show(trets[0].live)[:100] if trets else '-'})", s.node.lineno)
+        S1, S2 = ("call", conv, (P1,), ()), ("call", conv, (P2,), ())
+        inter = ("attr", ("call", ("attr", S1, "intersection"), (S2,), ()), "area")
+        union = ("bin", "-", ("bin", "+", ("attr", S1, "area"), ("attr", S2, "area")), inter)
+        arets = [r for r in s.returns if not (r.term[0] == "call" and r.term[1] == tsym)]
+        self.fast_leaves = (P1, P2)
+        self.check_iou("compute_affinity", s, arets, inter, union, clamp_required=True)
+        self.fast_leaves = None
+        self.check_time_function(s)
+
     # ------------------------------------------------------------------ R06.2 (branch) / R06.3 / R06.4 / R06.5
     def check_body(self):
         ctx = self.ctx
@@ -142,8 +209,15 @@ class C06:
         g1, g2 = ("param", s.params[0]), ("param", s.params[1])
         tb, fb = ("param", "time_buffer"), ("param", "freq_buffer")
         prep_sym = ("global", f"{AFF}:_prepare_geometry", "func")
-        ps = ctx.summ.of_func(AFF, "_prepare_geometry")
         site = f"{self.file}:{s.node.lineno} compute_affinity"
+        try:
+            ps = ctx.summ.of_func(AFF, "_prepare_geometry")
+        except AnalysisError:
+            ps = None
+        if ps is None:
+            # the private helper is gone (its body written out in compute_affinity): the prepared geometries are the values handed
+            # to the converter / the time branch, read as functions of the geometry they derive from
+            return self.check_body_inlined(s, g1, g2, tb, fb, site)
         preps = [e for e in s.calls if e.term[1] == prep_sym]
         prepared = {}
         for e in preps:
@@ -253,6 +327,10 @@ class C06:
                         + ("; an unbuffered zero-area geometry gives affinity 0 with everything, including itself" if BUFFER_TYPES - buffered else "")
                         + ("; buffering a geometry that already has an extent changes its affinities" if buffered - BUFFER_TYPES else ""),
                         ps.node.lineno)
+        self.check_time_function(s)
+
+    def check_time_function(self, s):
+        ctx = self.ctx
         # time branch function
         try:
             ts = ctx.summ.of_func(AFF, "compute_affinity_in_time")
